@@ -421,6 +421,15 @@ def explore(ctx):
         elif i % 5 == 4 and kw["optimizeCFF"] == 2:
             kw["subroutinizer"] = ["cffsubr", "compreffor"][(i // 5) % 2] if kw["cffVersion"] == 1 else "cffsubr"
             ctx.klass("sem:subroutinizer named")
+        if i % 4 == 2:
+            # fractional PostScript width hints in the font info (interpolated instance UFOs have them), and glyphs whose raw
+            # width IS the fractional default / differs from the fractional nominal by a half: the advance a CFF charstring
+            # carries is still the source width rounded half up, the same number as in hmtx
+            dw, nw = [(Fr(975, 2), Fr(1125, 2)), (Fr(500), Fr(2401, 4)), (Fr(1025, 2), Fr(480))][(i // 4) % 3]
+            desc["info"] = dict(desc.get("info", {}), postscriptDefaultWidthX=float(dw), postscriptNominalWidthX=float(nw))
+            for k, g in enumerate(desc["glyphs"][:3]):
+                g["width"] = [dw, nw + Fr(75, 2), Fr(600)][k]
+            ctx.klass("sem:fractional postscriptDefaultWidthX / NominalWidthX")
         case = {"font": jsonable(desc), "lib": lib, "options": kw, "level": "compileOTF"}
         try:
             tt = ufo2ft.compileOTF(build_font(desc, lib), **kw)
@@ -492,6 +501,12 @@ def explore(ctx):
                                  "(segment-level reference): got %r want %r" % (name, jsonable(got)[:3], jsonable(ref)[:3]))
             if adv != geom.ot_round(g["width"]):
                 ctx.spec_failure(dict(case, glyph=name), "hmtx advance %r != otRound(width %s)" % (adv, g["width"]))
+            if "CFF " in tt:
+                from fontTools.pens.basePen import NullPen
+                cs = tt["CFF "].cff[0].CharStrings[name]; cs.draw(NullPen())
+                if cs.width != geom.ot_round(g["width"]):
+                    ctx.spec_failure(dict(case, glyph=name), "the CFF charstring of %r carries the advance %r; the source width %s rounds to %d" % (
+                        name, cs.width, g["width"], geom.ot_round(g["width"])))
             if not has_q(desc, name) and tol >= Fr(1, 2) and not skipped:
                 obs.append((name, geom.drawn_points(gs[name]), adv))
         if obs:
